@@ -13,7 +13,7 @@ RULE = ("compressed_segmentation: for small valid chunks (both dtypes, 1-3 chann
         "2^24-1, value offsets past the end), random bytes, plus VALID variants written by an independent "
         "encoder (channels stored in reverse order, no table sharing, tables after the values); raw: "
         "lengths around the expected size; JPEG: valid, truncated at sampled positions, corrupted bytes, frame-header fields (height/width/components/length) set to extreme values, "
-        "wrong pixel count, wrong mode, non-JPEG data. Outcome classes (and arrays) are compared with the "
+        "wrong pixel count, wrong mode, non-JPEG data; the chunk size is passed in every form callers use (tuple, the list of the JSON info, NumPy integers, NumPy array). Outcome classes (and arrays) are compared with the "
         "Lean models. Trivial = empty input.")
 ASSUMPTIONS = [
     "PIL's behaviour is observed per input and passed to the wrapper model (engine not modelled)",
@@ -167,6 +167,21 @@ def classify(fn, shape, dtype):
     return res
 
 
+def size_form(rng, size):
+    """The chunk size in one of the forms callers really use: a tuple, the list that comes out of the JSON
+    info, NumPy integers, a NumPy array."""
+    k = rng.randrange(5)
+    if k == 0:
+        return list(size)
+    if k == 1:
+        return tuple(np.int64(v) for v in size)
+    if k == 2:
+        return np.array(size)
+    if k == 3:
+        return [np.uint32(v) for v in size]
+    return tuple(size)
+
+
 def run(ctx):
     import PIL.Image
     from neuroglancer_scripts.chunk_encoding import (CompressedSegmentationEncoder, JpegChunkEncoder,
@@ -201,7 +216,7 @@ def run(ctx):
         cases = [(buf, True), (alt_encode(a, bs), True), (alt_encode_shared(a, bs), True)]
         cases += [(m, False) for m in mutations(rng, buf, C, ng, full=ctx.tier == "thorough")]
         for data, valid in cases:
-            res = classify(lambda: enc.decode(data, size), a.shape, a.dtype)
+            res = classify(lambda: enc.decode(data, size_form(rng, size)), a.shape, a.dtype)
             desc = {"decoder": "compressed_segmentation", "dtype": dt, "shape": list(a.shape),
                     "block_size": bs, "data_hex": data.hex(), "valid": valid}
             ctx.case(("cseg", dt, tuple(bs), a.shape, data), nontrivial=len(data) > 0,
@@ -222,7 +237,7 @@ def run(ctx):
         data = bytes(rng.randrange(256) for _ in range(n))
         enc = RawChunkEncoder(dt, C)
         shape = (C, size[2], size[1], size[0])
-        res = classify(lambda: enc.decode(data, size), shape, dt)
+        res = classify(lambda: enc.decode(data, size_form(rng, size)), shape, dt)
         valid = n == count * isz
         desc = {"decoder": "raw", "dtype": dt, "shape": list(shape), "data_hex": data.hex(), "valid": valid}
         ctx.case(("raw", dt, shape, data), nontrivial=n > 0)
@@ -294,7 +309,7 @@ def run(ctx):
         variants.append((b"not a jpeg", False))
         count = C * size[0] * size[1] * size[2]
         for data, valid in variants:
-            res = classify(lambda: enc.decode(data, size), shape, "uint8")
+            res = classify(lambda: enc.decode(data, size_form(rng, size)), shape, "uint8")
             desc = {"decoder": "jpeg", "shape": list(shape), "data_hex": data.hex()[:4000], "valid": valid}
             ctx.case(("jpeg", shape, data))
             judge("jpeg", res, desc, bool(valid))
